@@ -263,8 +263,19 @@ def _extract_gen(ctx):
         ctx.notes.append("I2N/Extracted/GenRules.lean changed: the source of TestNode.should_rerun / "
                          "shared_filtered_results differs from the one the committed file was generated from "
                          "(shouldRerun_matches_source / filteredResults_matches_source are re-checked)")
+    import pygen_pxrunner
+    if pygen_pxrunner.extract_runner(ctx):
+        ctx.notes.append("I2N/Extracted/GenRunner.lean changed: the source of TestRunner.run_test_node / all_results_ok "
+                         "differs from the one the committed file was generated from (runBefore_/pollFound_/poll_/"
+                         "runAfter_/runTestNode_/allResultsOk_matches_source are re-checked)")
     ctx.extra["regenerated"] = ("lean/I2N/Extracted/GenRules.lean (TestNode.should_rerun, shared_filtered_results, "
-                                "default_run_decision via harness/pygen.py)")
+                                "default_run_decision via harness/pygen.py); lean/I2N/Extracted/GenRunner.lean "
+                                "(TestRunner.run_test_node cut at its two awaits into the segments genRunBefore, genLookup, "
+                                "genPollFound, genPollMiss, genRunAfter, and the any(...) of TestRunner.all_results_ok, via "
+                                "harness/pygen_pxrunner.py); obligations: allResultsOk_matches_source, "
+                                "runBefore_matches_source, pollFound_matches_source, poll_matches_source, "
+                                "pollMiss_matches_source, statusTimeout_matches_source, runAfter_matches_source, "
+                                "beginExec_matches_source, runTestNode_matches_source")
 
 
 _EXTRACTED_VALUES = None
